@@ -40,6 +40,7 @@ func newAcctSrv() *acctSrv {
 	a := &acctSrv{conn: c, stops: map[string]int{}}
 	go func() {
 		buf := make([]byte, 4096)
+		seen := map[string]bool{} // a retransmission (the same datagram again, after a stall of the machine) is not a second Stop
 		for {
 			n, addr, err := c.ReadFromUDP(buf)
 			if err != nil {
@@ -49,7 +50,9 @@ func newAcctSrv() *acctSrv {
 			if err != nil {
 				continue
 			}
-			if st, err := rfc2866.AcctStatusType_Lookup(pkt); err == nil && st == rfc2866.AcctStatusType_Value_Stop {
+			dup := seen[string(buf[:n])]
+			seen[string(buf[:n])] = true
+			if st, err := rfc2866.AcctStatusType_Lookup(pkt); !dup && err == nil && st == rfc2866.AcctStatusType_Value_Stop {
 				sid := rfc2866.AcctSessionID_GetString(pkt)
 				a.mu.Lock()
 				a.stops[sid]++
@@ -142,7 +145,7 @@ func (r *run) Do(op string) string {
 	f := hx.Fields(op)
 	switch f[0] {
 	case "new":
-		cfg := pppoe.TeardownConfig{CleanupTimeout: 2 * time.Second, RADIUSTimeout: time.Second}
+		cfg := pppoe.TeardownConfig{CleanupTimeout: 20 * time.Second, RADIUSTimeout: 10 * time.Second}
 		r.td = pppoe.NewSessionTeardown(cfg, zap.NewNop())
 		r.sm = pppoe.NewSessionManager()
 		p, err := pppoe.NewIPPool("10.77.0.0/28", "10.77.0.1")
@@ -167,7 +170,7 @@ func (r *run) Do(op string) string {
 			port := r.acct.conn.LocalAddr().(*net.UDPAddr).Port
 			cl, err := bngradius.NewClient(bngradius.ClientConfig{
 				Servers: []bngradius.ServerConfig{{Host: "127.0.0.1", Port: port - 1, Secret: "s3cret"}},
-				NASID:   "verif", Timeout: 500 * time.Millisecond, Retries: 1,
+				NASID:   "verif", Timeout: 4 * time.Second, Retries: 1,
 			}, zap.NewNop())
 			if err != nil {
 				return "error " + err.Error()
